@@ -19,7 +19,20 @@ def gen_unit(rng):
         vals = [rng.choice(["a", "b", "", "k\"q", "\u00e9 x", "src", "vf", 5, None, ["a"], {"a": 1}]) for _ in range(rng.choice((0, 1, 3, 8, 20)))]
         return {"input": records.to_input(vals, rng), "args": rng.choice(([], ["--unique"], ["--filter", "(string? .)"], ["--take", "5"])), "out": rng.choice([[], ["--style", "consise"]]),
                 "upstream": ["dot-key"], "mode": "group", "keycol": None, "groupexpr": rng.choice((".", ".", "(default . 1)", "(| . .)"))}
-    recs = records.gen_records(rng)
+    if rng.random() < 0.04:
+        # the group key comes from the record the row was split from (`^`), with sorters between the split and the collector:
+        # the row carries its chain of enclosing inputs as far as the last stage
+        recs = records.gen_records(rng, n=rng.choice((2, 5, 9, 14)))
+        for i, r in enumerate(recs):
+            r["subs"] = [{"n": rng.randint(0, 9), "i": i * 10 + j} for j in range(rng.choice((0, 1, 2, 3)))]
+        args = ["--split-by", ".subs", "--select", "^.g=g", "--select", ".n=n", "--select", ".i=i"]
+        for _ in range(rng.choice((0, 1, 1, 2))):
+            args += ["--sort-by", rng.choice([".n", ".i=DESC", "^.s", "^.k=DESC", "(+ .n ^.s)"])]
+        if rng.random() < 0.3:
+            args += ["--take", str(rng.choice((3, 10, 2 ** 64 - 1)))]
+        return {"input": records.to_input(recs, rng), "args": args, "out": rng.choice([[], ["--style", "consise"]]), "upstream": ["parent-key", "split"] + (["sort"] if "--sort-by" in args else []),
+                "mode": rng.choice(("group", "group", "merge")), "keycol": "g", "groupexpr": "^.g"}
+    recs = records.gen_records(rng, n=rng.choice((65, 66, 130, 200, 333)) if rng.random() < 0.03 else None)
     for r in recs:
         if rng.random() < 0.3:
             r["subs"] = [{"g": rng.choice(records.GROUP_UNIVERSE[:6]), "n": i} for i in range(rng.choice((0, 1, 2, 3)))]
@@ -146,7 +159,7 @@ def run_unit(ctx, unit):
         want = {}
         dropped = 0
         for r in R:
-            k = r if unit.get("groupexpr") else r.get(unit.get("keycol", "g")) if isinstance(r, dict) else None
+            k = r if unit.get("groupexpr") and unit.get("keycol") is None else r.get(unit.get("keycol", "g")) if isinstance(r, dict) else None
             if isinstance(k, str):
                 want.setdefault(k, []).append(r)
             else:
